@@ -121,6 +121,7 @@ class CategoricalInstance(PrefLibInstance):
                 self.multiplicity[ballot] += 1
                 if ballot not in new_pref_list:
                     new_pref_list.append(ballot)
+        self.preferences = new_pref_list
 
     def recompute_cardinality_param(self):
         """Recomputes the basic cardinality parameters based on the preferences list in the
@@ -310,8 +311,11 @@ class CategoricalInstance(PrefLibInstance):
             while len(preference) < num_categories:
                 preference.append(tuple())
             preference = tuple(preference)
-            cat_instance.preferences.append(preference)
-            cat_instance.multiplicity[preference] = multiplicities[index]
+            if preference in cat_instance.multiplicity:
+                cat_instance.multiplicity[preference] += multiplicities[index]
+            else:
+                cat_instance.preferences.append(preference)
+                cat_instance.multiplicity[preference] = multiplicities[index]
 
         cat_instance.num_categories = num_categories
         for k in range(num_categories):
